@@ -114,7 +114,7 @@ def model_request(case, tbl, da, partner):
     import xgcm.padding as xp
     # the order in which the implementation iterates the pad axes (same process, same hash seed)
     conn_axes = xp._get_all_connection_axes({"face": fg.fc_arg(tbl)["face"]}, "face")
-    pad_axes = list(set(conn_axes + list(case["widths"].keys())))
+    pad_axes = [a for a in ("X", "Y") if a in (conn_axes + list(case["widths"].keys()))]     # the grid's own axis order (not a set's)
     data4 = fg.canon_faces(da, *case["dims"])
     R = data4.shape[3]
     rules = resolved_rules(case)
